@@ -99,10 +99,16 @@ package fox
 //@   params self, txn
 //@   modifies heap
 //@   ensures txn.fox == old(txn.fox) && txn.write == old(txn.write) && txn.rootTxn == old(txn.rootTxn) && (txn.rootTxn != nil ==> txn.rootTxn.tree != nil)
+//@   -- it may panic at any point; the same holds then
+//@   may-panic
+//@   ensures-on-panic txn.fox == old(txn.fox) && txn.write == old(txn.write) && txn.rootTxn == old(txn.rootTxn) && (txn.rootTxn != nil ==> txn.rootTxn.tree != nil)
 //@ extern (*Router).View#fn
 //@   params self, txn
 //@   modifies heap
 //@   ensures txn.fox == old(txn.fox) && txn.write == old(txn.write) && txn.rootTxn == old(txn.rootTxn) && (txn.rootTxn != nil ==> txn.rootTxn.tree != nil)
+//@   -- it may panic at any point; the same holds then
+//@   may-panic
+//@   ensures-on-panic txn.fox == old(txn.fox) && txn.write == old(txn.write) && txn.rootTxn == old(txn.rootTxn) && (txn.rootTxn != nil ==> txn.rootTxn.tree != nil)
 
 //@ -- the deferred function: aborts; when a panic is in flight it aborts first and re-raises the same value
 //@ func (*Router).Updates$1 props C04,C15
@@ -110,6 +116,7 @@ package fox
 //@   modifies panicking, txn.rootTxn, held[&txn.fox.mu], lockOps[&txn.fox.mu]
 //@   panics-when panicking != nil
 //@   assert-at panic#1 : reraised: panic_value == old(panicking) && (txn.write ==> txn.rootTxn == nil) && (old(txn.write && txn.rootTxn != nil) ==> !held[&txn.fox.mu]) && pubCount[&txn.fox.tree] == old(pubCount[&txn.fox.tree])
+//@   ensures-on-panic released: panicking != nil && (txn.write ==> txn.rootTxn == nil) && (old(txn.write && txn.rootTxn != nil) ==> !held[&txn.fox.mu]) && pubCount[&txn.fox.tree] == old(pubCount[&txn.fox.tree]) && published[&txn.fox.tree] == old(published[&txn.fox.tree])
 //@   ensures must-reraise: old(panicking) == nil
 //@   ensures settled: txn.write ==> txn.rootTxn == nil
 //@   ensures nothing-published: pubCount[&txn.fox.tree] == old(pubCount[&txn.fox.tree]) && published[&txn.fox.tree] == old(published[&txn.fox.tree])
@@ -121,12 +128,15 @@ package fox
 //@   modifies panicking, txn.rootTxn
 //@   panics-when panicking != nil
 //@   assert-at panic#1 : reraised: panic_value == old(panicking) && held[&txn.fox.mu] == old(held[&txn.fox.mu]) && lockOps[&txn.fox.mu] == old(lockOps[&txn.fox.mu])
+//@   ensures-on-panic nolock: panicking != nil && held[&txn.fox.mu] == old(held[&txn.fox.mu]) && lockOps[&txn.fox.mu] == old(lockOps[&txn.fox.mu]) && pubCount[&txn.fox.tree] == old(pubCount[&txn.fox.tree]) && published[&txn.fox.tree] == old(published[&txn.fox.tree])
 //@   ensures must-reraise: old(panicking) == nil
 //@   ensures nolock: held[&txn.fox.mu] == old(held[&txn.fox.mu]) && lockOps[&txn.fox.mu] == old(lockOps[&txn.fox.mu]) && pubCount[&txn.fox.tree] == old(pubCount[&txn.fox.tree])
 
 //@ func (*Router).Updates props C04,C15
 //@   requires fox != nil && fn != nil && published[&fox.tree] != nil && !held[&fox.mu] && panicking == nil
 //@   modifies heap, held[&fox.mu], lockOps[&fox.mu], published[&fox.tree], pubCount[&fox.tree], snapRef, unlockedLoads[&fox.tree]
+//@   -- a panic inside fn: the deferred function aborts before re-raising it
+//@   ensures-on-panic released: panicking != nil && !held[&fox.mu] && pubCount[&fox.tree] == old(pubCount[&fox.tree]) && published[&fox.tree] == old(published[&fox.tree])
 //@   ensures unlocked: !held[&fox.mu]
 //@   ensures committed: result == nil ==> pubCount[&fox.tree] == old(pubCount[&fox.tree]) + 1
 //@   ensures aborted: result != nil ==> pubCount[&fox.tree] == old(pubCount[&fox.tree]) && published[&fox.tree] == old(published[&fox.tree])
@@ -134,6 +144,7 @@ package fox
 //@ func (*Router).View props C04,C06
 //@   requires fox != nil && fn != nil && published[&fox.tree] != nil && panicking == nil
 //@   modifies heap, snapRef, unlockedLoads[&fox.tree]
+//@   ensures-on-panic nolock: panicking != nil && held[&fox.mu] == old(held[&fox.mu]) && lockOps[&fox.mu] == old(lockOps[&fox.mu]) && pubCount[&fox.tree] == old(pubCount[&fox.tree]) && published[&fox.tree] == old(published[&fox.tree])
 //@   ensures nolock: held[&fox.mu] == old(held[&fox.mu]) && lockOps[&fox.mu] == old(lockOps[&fox.mu]) && pubCount[&fox.tree] == old(pubCount[&fox.tree]) && published[&fox.tree] == old(published[&fox.tree])
 
 //@ -- a snapshot of a transaction is a read-only view: it can never publish or unlock
@@ -163,6 +174,7 @@ package fox
 //@ pred optsOK(opts []RouteOption) = forall k int :: {opts[k]} 0 <= k && k < len(opts) ==> opts[k] != nil
 
 //@ func (*Txn).Handle props C04,C02
+//@   may-panic
 //@   requires txn != nil && txn.fox != nil && (txn.rootTxn != nil ==> cacheOK(txn.rootTxn)) && mwsOK(txn.fox) && optsOK(opts)
 //@   panics-when txn.rootTxn == nil
 //@   modifies optCount, txn.rootTxn.root, txn.rootTxn.size, txn.rootTxn.maxParams, txn.rootTxn.depth, txn.rootTxn.writable, cachedIn, lastTxnRoute
@@ -173,6 +185,7 @@ package fox
 //@   ensures cache: cacheOK(txn.rootTxn) && lastTxnRoute == result0
 
 //@ func (*Txn).HandleRoute props C04,C02
+//@   may-panic
 //@   requires txn != nil && txn.fox != nil && (txn.rootTxn != nil ==> cacheOK(txn.rootTxn))
 //@   panics-when txn.rootTxn == nil
 //@   modifies txn.rootTxn.root, txn.rootTxn.size, txn.rootTxn.maxParams, txn.rootTxn.depth, txn.rootTxn.writable, cachedIn
@@ -182,6 +195,7 @@ package fox
 //@   ensures cache: cacheOK(txn.rootTxn)
 
 //@ func (*Txn).Update props C04,C02
+//@   may-panic
 //@   requires txn != nil && txn.fox != nil && (txn.rootTxn != nil ==> cacheOK(txn.rootTxn)) && mwsOK(txn.fox) && optsOK(opts)
 //@   panics-when txn.rootTxn == nil
 //@   modifies optCount, txn.rootTxn.root, txn.rootTxn.writable, cachedIn, lastTxnRoute
@@ -192,6 +206,7 @@ package fox
 //@   ensures cache: cacheOK(txn.rootTxn) && lastTxnRoute == result0
 
 //@ func (*Txn).UpdateRoute props C04,C02
+//@   may-panic
 //@   requires txn != nil && txn.fox != nil && (txn.rootTxn != nil ==> cacheOK(txn.rootTxn))
 //@   panics-when txn.rootTxn == nil
 //@   modifies txn.rootTxn.root, txn.rootTxn.writable, cachedIn
@@ -201,6 +216,7 @@ package fox
 //@   ensures cache: cacheOK(txn.rootTxn)
 
 //@ func (*Txn).Delete props C04,C02,C05
+//@   may-panic
 //@   requires txn != nil && txn.fox != nil && (txn.rootTxn != nil ==> cacheOK(txn.rootTxn))
 //@   panics-when txn.rootTxn == nil
 //@   modifies txn.rootTxn.root, txn.rootTxn.size, txn.rootTxn.writable, cachedIn, lastTxnRoute
@@ -213,41 +229,51 @@ package fox
 //@ -- ---------------------------------------------------------------- Router write operations: one locked read-modify-write
 //@ pred routerIdle(fox *Router) = fox != nil && published[&fox.tree] != nil && !held[&fox.mu] && panicking == nil
 
-//@ func (*Router).Handle props C04,C05,C02
+//@ func (*Router).Handle props C04,C05,C02,C15
 //@   requires routerIdle(fox) && mwsOK(fox) && optsOK(opts)
 //@   modifies heap, held[&fox.mu], lockOps[&fox.mu], published[&fox.tree], pubCount[&fox.tree], snapRef, unlockedLoads[&fox.tree], optCount, cachedIn, lastTxnRoute
+//@   -- a panic raised inside the transaction (route options, middleware constructors run under the writer lock) must not leave the lock held nor publish anything
+//@   ensures-on-panic @C15,C04,C05 released: !held[&fox.mu] && pubCount[&fox.tree] == old(pubCount[&fox.tree]) && published[&fox.tree] == old(published[&fox.tree])
 //@   ensures unlocked: !held[&fox.mu]
 //@   ensures locked-load: unlockedLoads[&fox.tree] == old(unlockedLoads[&fox.tree])
 //@   ensures committed: result1 == nil ==> pubCount[&fox.tree] == old(pubCount[&fox.tree]) + 1 && published[&fox.tree].size == old(published[&fox.tree].size) + 1 && result0 == lastTxnRoute && result0 != nil
 //@   ensures aborted: result1 != nil ==> pubCount[&fox.tree] == old(pubCount[&fox.tree]) && published[&fox.tree] == old(published[&fox.tree]) && result0 == nil
 
-//@ func (*Router).HandleRoute props C04,C05,C02
+//@ func (*Router).HandleRoute props C04,C05,C02,C15
 //@   requires routerIdle(fox)
 //@   modifies heap, held[&fox.mu], lockOps[&fox.mu], published[&fox.tree], pubCount[&fox.tree], snapRef, unlockedLoads[&fox.tree], cachedIn
+//@   -- a panic raised inside the transaction (route options, middleware constructors run under the writer lock) must not leave the lock held nor publish anything
+//@   ensures-on-panic @C15,C04,C05 released: !held[&fox.mu] && pubCount[&fox.tree] == old(pubCount[&fox.tree]) && published[&fox.tree] == old(published[&fox.tree])
 //@   ensures unlocked: !held[&fox.mu]
 //@   ensures locked-load: unlockedLoads[&fox.tree] == old(unlockedLoads[&fox.tree])
 //@   ensures committed: result == nil ==> pubCount[&fox.tree] == old(pubCount[&fox.tree]) + 1 && published[&fox.tree].size == old(published[&fox.tree].size) + 1
 //@   ensures aborted: result != nil ==> pubCount[&fox.tree] == old(pubCount[&fox.tree]) && published[&fox.tree] == old(published[&fox.tree])
 
-//@ func (*Router).Update props C04,C05,C02
+//@ func (*Router).Update props C04,C05,C02,C15
 //@   requires routerIdle(fox) && mwsOK(fox) && optsOK(opts)
 //@   modifies heap, held[&fox.mu], lockOps[&fox.mu], published[&fox.tree], pubCount[&fox.tree], snapRef, unlockedLoads[&fox.tree], optCount, cachedIn, lastTxnRoute
+//@   -- a panic raised inside the transaction (route options, middleware constructors run under the writer lock) must not leave the lock held nor publish anything
+//@   ensures-on-panic @C15,C04,C05 released: !held[&fox.mu] && pubCount[&fox.tree] == old(pubCount[&fox.tree]) && published[&fox.tree] == old(published[&fox.tree])
 //@   ensures unlocked: !held[&fox.mu]
 //@   ensures locked-load: unlockedLoads[&fox.tree] == old(unlockedLoads[&fox.tree])
 //@   ensures committed: result1 == nil ==> pubCount[&fox.tree] == old(pubCount[&fox.tree]) + 1 && published[&fox.tree].size == old(published[&fox.tree].size) && result0 == lastTxnRoute && result0 != nil
 //@   ensures aborted: result1 != nil ==> pubCount[&fox.tree] == old(pubCount[&fox.tree]) && published[&fox.tree] == old(published[&fox.tree]) && result0 == nil
 
-//@ func (*Router).UpdateRoute props C04,C05,C02
+//@ func (*Router).UpdateRoute props C04,C05,C02,C15
 //@   requires routerIdle(fox)
 //@   modifies heap, held[&fox.mu], lockOps[&fox.mu], published[&fox.tree], pubCount[&fox.tree], snapRef, unlockedLoads[&fox.tree], cachedIn
+//@   -- a panic raised inside the transaction (route options, middleware constructors run under the writer lock) must not leave the lock held nor publish anything
+//@   ensures-on-panic @C15,C04,C05 released: !held[&fox.mu] && pubCount[&fox.tree] == old(pubCount[&fox.tree]) && published[&fox.tree] == old(published[&fox.tree])
 //@   ensures unlocked: !held[&fox.mu]
 //@   ensures locked-load: unlockedLoads[&fox.tree] == old(unlockedLoads[&fox.tree])
 //@   ensures committed: result == nil ==> pubCount[&fox.tree] == old(pubCount[&fox.tree]) + 1 && published[&fox.tree].size == old(published[&fox.tree].size)
 //@   ensures aborted: result != nil ==> pubCount[&fox.tree] == old(pubCount[&fox.tree]) && published[&fox.tree] == old(published[&fox.tree])
 
-//@ func (*Router).Delete props C04,C05,C02
+//@ func (*Router).Delete props C04,C05,C02,C15
 //@   requires routerIdle(fox)
 //@   modifies heap, held[&fox.mu], lockOps[&fox.mu], published[&fox.tree], pubCount[&fox.tree], snapRef, unlockedLoads[&fox.tree], cachedIn, lastTxnRoute
+//@   -- a panic raised inside the transaction (route options, middleware constructors run under the writer lock) must not leave the lock held nor publish anything
+//@   ensures-on-panic @C15,C04,C05 released: !held[&fox.mu] && pubCount[&fox.tree] == old(pubCount[&fox.tree]) && published[&fox.tree] == old(published[&fox.tree])
 //@   ensures unlocked: !held[&fox.mu]
 //@   ensures locked-load: unlockedLoads[&fox.tree] == old(unlockedLoads[&fox.tree])
 //@   ensures committed: result1 == nil ==> pubCount[&fox.tree] == old(pubCount[&fox.tree]) + 1 && published[&fox.tree].size == old(published[&fox.tree].size) - 1 && result0 == lastTxnRoute
